@@ -23,23 +23,23 @@ type Violation struct {
 }
 
 type R struct {
-	mu         sync.Mutex
-	ID         string
-	Level      string
-	Rule       string
-	Counters   map[string]int64
-	Max        map[string]int64
-	samples    []any
-	maxSamples int
-	viol       map[string]*Violation
-	distinct   map[string]map[uint64]struct{}
-	export     map[string]bool
+	mu             sync.Mutex
+	ID             string
+	Level          string
+	Rule           string
+	Counters       map[string]int64
+	Max            map[string]int64
+	samples        []any
+	maxSamples     int
+	viol           map[string]*Violation
+	distinct       map[string]map[uint64]struct{}
+	export         map[string]bool
 	byConstruction map[string]int64
-	Assume     []string
-	Caps       []string
-	Notes      map[string]any
-	start      time.Time
-	deadline   time.Time
+	Assume         []string
+	Caps           []string
+	Notes          map[string]any
+	start          time.Time
+	deadline       time.Time
 }
 
 func New(id, level, rule string) *R {
@@ -226,19 +226,19 @@ func (r *R) NViolations() int {
 }
 
 type out struct {
-	ID         string           `json:"id"`
-	Level      string           `json:"level"`
-	Rule       string           `json:"rule"`
-	Counters   map[string]int64 `json:"counters"`
-	Max        map[string]int64 `json:"max"`
-	Distinct   map[string]int   `json:"distinct"`
+	ID         string              `json:"id"`
+	Level      string              `json:"level"`
+	Rule       string              `json:"rule"`
+	Counters   map[string]int64    `json:"counters"`
+	Max        map[string]int64    `json:"max"`
+	Distinct   map[string]int      `json:"distinct"`
 	Sets       map[string][]uint64 `json:"sets,omitempty"`
-	Samples    []any            `json:"samples"`
-	Violations []*Violation     `json:"violations"`
-	Assume     []string         `json:"assumptions"`
-	Caps       []string         `json:"caps"`
-	Notes      map[string]any   `json:"notes"`
-	WallS      float64          `json:"wall_s"`
+	Samples    []any               `json:"samples"`
+	Violations []*Violation        `json:"violations"`
+	Assume     []string            `json:"assumptions"`
+	Caps       []string            `json:"caps"`
+	Notes      map[string]any      `json:"notes"`
+	WallS      float64             `json:"wall_s"`
 }
 
 func (r *R) Write() {
